@@ -94,9 +94,8 @@ func (m *ZZGitModel) flatten(treeID string, prefix string, out *[]zzFlat) error 
 	if !ok {
 		return errors.New("fatal: not a tree object")
 	}
-	// entries are listed in the order they were added (git lists them sorted;
-	// no consumer depends on the order, and sorting symbolic names would only
-	// split cases)
+	// entries are collected in the order they were added; zzSortFlat puts the
+	// full paths in git's (bytewise) order afterwards
 	for _, e := range ents {
 		if e.Tree {
 			if err := m.flatten(e.ID.String(), prefix+e.Name+"/", out); err != nil {
@@ -107,6 +106,31 @@ func (m *ZZGitModel) flatten(treeID string, prefix string, out *[]zzFlat) error 
 		}
 	}
 	return nil
+}
+
+// zzPathLess: bytewise order of two path names (compares byte by byte so that
+// names with symbolic bytes split into the orderings that matter).
+func zzPathLess(a, b string) bool {
+	for i := 0; i < len(a) && i < len(b); i++ {
+		if a[i] < b[i] {
+			return true
+		}
+		if a[i] > b[i] {
+			return false
+		}
+	}
+	return len(a) < len(b)
+}
+
+// zzSortFlat orders a recursive listing as git does: by full path, bytewise
+// (which is what sorting every tree's entries with directories compared as
+// name+"/" yields for the files of a recursive listing).
+func zzSortFlat(flat []zzFlat) {
+	for i := 1; i < len(flat); i++ {
+		for j := i; j > 0 && zzPathLess(flat[j].path, flat[j-1].path); j-- {
+			flat[j], flat[j-1] = flat[j-1], flat[j]
+		}
+	}
 }
 
 func (m *ZZGitModel) treeOf(rev string) (string, error) {
@@ -182,6 +206,7 @@ func zzRun(m *ZZGitModel, args []string) (string, error) {
 			if err := m.flatten(tree, "", &flat); err != nil {
 				return "", err
 			}
+			zzSortFlat(flat)
 			for _, f := range flat {
 				if zzHasFlag(args, "--name-only") {
 					sb.WriteString(name(f.path) + term)
@@ -191,7 +216,20 @@ func zzRun(m *ZZGitModel, args []string) (string, error) {
 			}
 			return sb.String(), nil
 		}
-		for _, e := range m.Trees[tree] {
+		// git lists a tree's entries sorted by name, directories compared as name+"/"
+		listed := append([]ZZTreeEntry(nil), m.Trees[tree]...)
+		key := func(e ZZTreeEntry) string {
+			if e.Tree {
+				return e.Name + "/"
+			}
+			return e.Name
+		}
+		for i := 1; i < len(listed); i++ {
+			for j := i; j > 0 && zzPathLess(key(listed[j]), key(listed[j-1])); j-- {
+				listed[j], listed[j-1] = listed[j-1], listed[j]
+			}
+		}
+		for _, e := range listed {
 			mode, typ := "100644", "blob"
 			if e.Tree {
 				mode, typ = "040000", "tree"
@@ -229,7 +267,9 @@ func zzRun(m *ZZGitModel, args []string) (string, error) {
 			return "", err
 		}
 		// the harnesses only diff against the empty tree or an identical
-		// tree, so the comparison never has to order or match symbolic names
+		// tree, so the comparison never has to match symbolic names
+		zzSortFlat(fa)
+		zzSortFlat(fb)
 		var paths []string
 		switch {
 		case len(fa) == 0:
